@@ -202,10 +202,10 @@ RUNTIME_EXPRESSIONS = ['"qqx + 1"', '"size(qqarr)"', '"qqx as float64"', '"size(
 
 
 DERIVED_SUFFIXES = ("Impl", "Converter", "Serializer", "UnionCase", "Reader", "Writer", "ReaderBase", "WriterBase")
-# type names kept out of the directed list (they are in the witness of the open finding): a type `Union` gets the C++ serializer
-# functions ReadUnion / WriteUnion, the names of the file-local helpers for unions; an enum `ProtocolError` is shadowed in the
-# generated Python protocols module by the runtime exception of that name
-FILE_LOCAL_HELPERS = ("ReadUnion", "WriteUnion", "Union", "ProtocolError")
+# type names kept out of the directed list (they are in the witness of the open finding): an enum `ProtocolError` is shadowed in the
+# generated Python protocols module by the runtime exception of that name. (A type `Union` used to hide the file-local C++ helpers
+# ReadUnion / WriteUnion: fixed in 00c5aab, and back in the directed lists.)
+FILE_LOCAL_HELPERS = ("ProtocolError",)
 
 
 def _camel_lower(w):
@@ -367,6 +367,29 @@ def name_packages(sc, reserved, rng, quick):
                 pkg.defs.append({"kind": "alias", "name": t, "tparams": [], "type": ("vec", P("float32"), None)})
         pkg.defs.append({"kind": "protocol", "name": "UsesThem", "steps": [(f"s{i}", ("named", t, []), i % 2 == 0) for i, t in enumerate(chunk)]})
         yield Job(f"names:types-{ci}", sc.path(f"n-types-{ci}"), pkg=pkg, manifest_extra=OPTION_SETS[2][1], compile_cpp=True, ndjson=True, namespace="TypeNames")
+    # capitalised words that mean something in a target (Python's None / True / False, C macros, typing names), each as every kind of definition
+    special = ["None", "True", "False", "Any", "List", "Optional", "Enum", "Self", "Type", "Union", "Generic", "Protocol"]
+    for r in range(4):
+        pkg = modelgen.Package("SpecialNames")
+        for i, t in enumerate(special):
+            kind = (i + r) % 4
+            if kind == 0:
+                pkg.defs.append({"kind": "record", "name": t, "tparams": [], "fields": [("a", P("int32"))]})
+            elif kind == 1:
+                pkg.defs.append({"kind": "enum", "name": t, "flags": False, "base": None, "auto": True, "values": [("a", 0), ("b", 1)]})
+            elif kind == 3:
+                pkg.defs.append({"kind": "alias", "name": t, "tparams": [], "type": ("union", True, [("ua", P("int32")), ("ub", P("string"))])})
+            else:
+                pkg.defs.append({"kind": "alias", "name": t, "tparams": [], "type": ("vec", P("float32"), None)})
+        pkg.defs.append({"kind": "protocol", "name": "UsesThem", "steps": [(f"s{i}", ("named", t, []), i % 2 == 0) for i, t in enumerate(special)]})
+        yield Job(f"names:special-types-{r}", sc.path(f"n-special-{r}"), pkg=pkg, manifest_extra=OPTION_SETS[2][1], compile_cpp=True, ndjson=True, namespace="SpecialNames")
+    # names that are macros of the C standard library headers the generated C++ includes (not reserved words: a known finding, see known_findings.json)
+    pkg = modelgen.Package("MacroNames")
+    pkg.defs.append({"kind": "record", "name": "NULL", "tparams": [], "fields": [("a", P("int32"))]})
+    pkg.defs.append({"kind": "enum", "name": "EOF", "flags": False, "base": None, "auto": True, "values": [("a", 0), ("b", 1)]})
+    pkg.defs.append({"kind": "record", "name": "Status", "tparams": [], "fields": [("errno", P("int32"))]})
+    pkg.defs.append({"kind": "protocol", "name": "UsesThem", "steps": [("n", ("named", "NULL", []), False), ("e", ("named", "EOF", []), True), ("s", ("named", "Status", []), False)]})
+    yield Job("witness:standard-macro-names", sc.path("n-macros"), pkg=pkg, manifest_extra=OPTION_SETS[2][1], compile_cpp=True, ndjson=True, namespace="MacroNames")
     # names that differ only in capitalization become one member after case conversion: either the package is rejected, or
     # the generated code must still be well formed
     pairs = [("fooBar", "fooBAR"), ("aB", "a_b"), ("xY1", "xy1") if False else ("valueOne", "valueONE")]
@@ -491,8 +514,7 @@ def cross_packages(sc, quick):
     yield Job("cross:same-namespace", sc.path("cross-one"), pkg=one, manifest_extra=OPTION_SETS[2][1], compile_cpp=not quick, ndjson=True, namespace="CrossOne")
 
 
-DERIVED_NAMES_MODEL = """Union: !union {qqa: int, qqb: string*}
-ProtocolError: !enum
+DERIVED_NAMES_MODEL = """ProtocolError: !enum
   values: [qqa, qqb]
 Optional: !record
   fields:
@@ -509,7 +531,6 @@ QqSteps: !protocol
   sequence:
     close: int
     closeImpl: int
-    u: Union
     e: ProtocolError
     o: Optional
     oc: OptionalConverter
@@ -623,6 +644,10 @@ def known_finding_witnesses(sc):
     yield Job("witness:derived-names", sc.path("kf-derived"), model_text=DERIVED_NAMES_MODEL, manifest_extra=OPTION_SETS[2][1], compile_cpp=True, ndjson=True, namespace="Kf5")
     yield Job("cross:use-before-declaration", sc.path("use-before-decl"), model_text=USE_BEFORE_DECLARATION_MODEL, manifest_extra=OPTION_SETS[2][1], compile_cpp=True, ndjson=True,
               namespace="OrderNs", exercise=True)
+    pkg = modelgen.Package("PairAliases")
+    pkg.defs.append({"kind": "record", "name": "Pair", "tparams": ["A", "B"], "fields": [("first", ("tparam", "A")), ("second", ("tparam", "B"))]})
+    pkg.defs.extend(modelgen.pair_alias_defs())
+    yield Job("cross:generic-aliases-of-a-generic-record", sc.path("pair-aliases"), pkg=pkg, manifest_extra=OPTION_SETS[2][1], compile_cpp=True, ndjson=True, namespace="PairAliases", exercise=True)
     yield Job("witness:open-generic-union-with-generic-case", sc.path("kf-gunion"), model_text=("Pair<T>: !record\n  fields:\n    a: T\n    b: T\nG<T>: !record\n  fields:\n    u: !union {p: Pair<T>, s: string}\n"
                                                                                                "P: !protocol\n  sequence:\n    g: G<int>\n"),
               manifest_extra=OPTION_SETS[2][1], compile_cpp=True, ndjson=True, namespace="Kf6")
@@ -777,7 +802,7 @@ def judge(report, j, res, seed):
             # the first error is about a sequence of bool (std::vector<bool> has no data() and hands out proxies, not bool&)
             report.violation("cpp:vector-of-bool", dict(replay, output=cpp["log"]), "the generated C++ does not compile as C++17")
         elif not cpp["ok"]:
-            report.violation(f"cpp:{_sig(cpp['log'])}" + (":" + j.kind if j.kind.startswith(("names:namespace", "init:", "witness:derived-names", "witness:open-generic-union", "cross:")) else ""), dict(replay, output=cpp["log"]), "the generated C++ does not compile as C++17")
+            report.violation(("cpp:" if j.kind != "witness:standard-macro-names" else "cpp:a-name-is-a-macro-of-the-standard-headers") + (_sig(cpp['log']) if j.kind != "witness:standard-macro-names" else "") + (":" + j.kind if j.kind.startswith(("names:namespace", "init:", "witness:derived-names", "witness:open-generic-union", "cross:")) else ""), dict(replay, output=cpp["log"]), "the generated C++ does not compile as C++17")
 
 
 def _sig(text):
